@@ -389,17 +389,15 @@ Proof. exact y_datetime_spec. Qed.
 Print Assumptions C12_datetime_spec.
 
 (* use_enum_value.  DeepHash always hashes the value; _diff unwraps exactly when the TYPES differ (a
-   plain value, a member of another class) and then compares without type check; None on either
-   side is reported.  So at such a position, neither side None-valued, the property holds iff it
+   plain value, a member of another class) and then compares without type check (the None edge
+   case of _diff apart).  So at such a position, neither side None-valued, the property holds iff it
    holds for the two VALUES under the comparer of the first one's type with report_type_change off. *)
 Theorem C12_enum_unwrapping :
   forall udiff F, o_enum F = true ->
   (forall c n o v, yh_text F (AEnum c n o v) = yh_text F (atom_of_e v)) /\
   (forall c n o v b p1 p2, o_excl F = [] -> o_nan F = false -> other_class c b = true ->
-     leafR udiff F (AEnum c n o v) b p1 p2 =
-       if is_none (atom_of_e v) || is_none (unwrap F b)
-       then Ok (rep_atoms F KValue p1 p2 (atom_of_e v) (unwrap F b))
-       else dispatch udiff F false (atom_of_e v) (unwrap F b) p1 p2).
+     is_none (atom_of_e v) = false -> is_none (unwrap F b) = false ->
+     leafR udiff F (AEnum c n o v) b p1 p2 = dispatch udiff F false (atom_of_e v) (unwrap F b) p1 p2).
 Proof.
   intros udiff F E. split; [intros; apply yh_text_unwrap; exact E|].
   intros. apply (leafR_enum_unwrap udiff F E); assumption.
@@ -416,14 +414,43 @@ Theorem C12_enum_transfer_partial :
 Proof. exact y_enum_transfer. Qed.
 Print Assumptions C12_enum_transfer_partial.
 
-(* the three ways the guards of the transfer theorem are needed (findings enum-none-value,
-   enum-same-class-members, enum-unwrap-skips-type-check) *)
-Theorem C12_enum_none_value_refuted :
-  obs Yenum false (va E4_N) (va ANone) = (Some true, YNonEmpty) /\
-  obs Yenum false (d1 ks (va E4_N)) (d1 ks (va ANone)) = (Some true, YNonEmpty) /\
-  obs Yenum false (d1 ks (va E4_N)) (d1 ks (va E4_N)) = (Some true, YEmpty).
-Proof. exact y_enum_none_value_refuted. Qed.
-Print Assumptions C12_enum_none_value_refuted.
+(* the None edge case of _diff after unwrapping, as FIXED in /repo c9e614d (it was finding C12-enum-none-value:
+   values_changed None -> None): a None-valued member facing None / a None-valued member of another
+   class has equal hashes and nothing is reported - no guard *)
+Theorem C12_enum_none_value_agrees :
+  forall udiff F, o_enum F = true ->
+  forall (H : pystr -> pystr) c n o b p1 p2,
+  o_excl F = [] -> o_nan F = false -> other_class c b = true -> is_none (unwrap F b) = true ->
+  yh_atom H F (AEnum c n o ENone) = yh_atom H F b /\ leafR udiff F (AEnum c n o ENone) b p1 p2 = Ok [].
+Proof. exact y_enum_none_agrees. Qed.
+Print Assumptions C12_enum_none_value_agrees.
+
+(* ... so the guard "neither None-valued" of the transfer theorem weakens to "not exactly one of them" *)
+Theorem C12_enum_transfer_none_partial :
+  forall udiff F, o_enum F = true ->
+  forall (H : pystr -> pystr) c n o v b p1 p2,
+  o_excl F = [] -> o_nan F = false -> other_class c b = true ->
+  is_none (atom_of_e v) = is_none (unwrap F b) ->
+  ((yh_atom H F (AEnum c n o v) = yh_atom H F b <-> leafR udiff F (AEnum c n o v) b p1 p2 = Ok []) <->
+   (if is_none (atom_of_e v) then True
+    else (yh_atom H F (atom_of_e v) = yh_atom H F (unwrap F b) <-> dispatch udiff F false (atom_of_e v) (unwrap F b) p1 p2 = Ok []))).
+Proof. exact y_enum_transfer_none. Qed.
+Print Assumptions C12_enum_transfer_none_partial.
+
+(* the former witness of that finding, now on the side of the property; a None-valued member facing a
+   VALUE is a difference for both engines *)
+Theorem C12_enum_none_value_fixed :
+  obs Yenum false (va E4_N) (va ANone) = (Some true, YEmpty) /\
+  obs Yenum false (d1 ks (va E4_N)) (d1 ks (va ANone)) = (Some true, YEmpty) /\
+  obs Yenum false (d1 ks (va ANone)) (d1 ks (va E4_N)) = (Some true, YEmpty) /\
+  obs Yenum false (d1 ks (va E4_N)) (d1 ks (va E4_N)) = (Some true, YEmpty) /\
+  obs Yenum false (d1 ks (va E4_N)) (d1 ks (va (AStr (s2p "x")))) = (Some false, YNonEmpty).
+Proof. exact y_enum_none_value_fixed. Qed.
+Print Assumptions C12_enum_none_value_fixed.
+
+(* the ways the guards of the transfer theorem are needed (findings enum-same-class-members,
+   enum-unwrap-skips-type-check; the None-valued member facing None was a third one until the /repo
+   fix c9e614d) *)
 Theorem C12_enum_same_class_refuted :
   obs Yenum_case false (va E_B) (va E_D) = (Some true, YNonEmpty) /\ other_class (s2p "E") E_D = false.
 Proof. exact y_enum_same_class_refuted. Qed.
